@@ -92,6 +92,22 @@ type FrameDesc struct {
 	ReadErr bool        `json:"read_err,omitempty"`
 }
 
+// MFormDesc describes a case of stream "mform" (the multipart form of /ingest) to the Coq model.
+type MPart struct {
+	Name    string `json:"name"`
+	File    bool   `json:"file"`    // the part has a filename (a form FILE; else a form value)
+	Content string `json:"content"` // profile | nested | empty | garbage | notgzip
+	Size    int    `json:"size"`    // profile / nested / garbage: bytes the gzip layer inflates to (about; the harness measures Inflated)
+	// measured: bytes the (outer) gzip layer of the content inflates to; nested: and what the second layer inflates to
+	Inflated  int `json:"inflated"`
+	Inflated2 int `json:"inflated2,omitempty"`
+}
+type MFormDesc struct {
+	BoundaryOK bool    `json:"boundary_ok"` // the first line is "--" + a token of [A-Za-z0-9'-]
+	Closed     bool    `json:"closed"`      // the body ends with the closing delimiter
+	Parts      []MPart `json:"parts"`
+}
+
 // LimDesc describes a case of stream "limit" to the Coq model.
 type LimDesc struct {
 	CE      string `json:"ce"`
@@ -195,6 +211,7 @@ type Case struct {
 	D      *Desc      `json:"d,omitempty"`
 	L      *LimDesc   `json:"l,omitempty"`
 	F      *FrameDesc `json:"f,omitempty"`
+	M      *MFormDesc `json:"m,omitempty"`
 	FModel *FrameDesc `json:"f_model,omitempty"` // what the model is told when the reader fails part-way (else F itself)
 	Obs    *Obs       `json:"obs,omitempty"`
 }
@@ -521,6 +538,8 @@ func (c *Case) body(r *rand.Rand) []byte {
 			return gz(bytes.Repeat([]byte{'a'}, c.Req.BodyGen.Bytes))
 		case "pprof_pad":
 			return paddedPprof(rand.New(rand.NewSource(1)), c.Req.BodyGen.Bytes)
+		case "mform":
+			return mformBody(c.M)
 		case "pprof_nested":
 			return gz(paddedPprof(rand.New(rand.NewSource(1)), c.Req.BodyGen.Bytes))
 		case "frame":
@@ -746,6 +765,122 @@ func genFrame(r *rand.Rand, id int) Case {
 	// the framing loops are about the 16 MiB token limit of the scanner: the payload limit of the router stays out of the way
 	c.Req.Limit = 64 << 20
 	c.Class = "frame/" + d.dec + "/" + class
+	return c
+}
+
+// ---- stream "mform": the multipart form of /ingest (findBoundary, multipart ReadForm, form.File["profile"][0], Decompressor(100000), Parse)
+
+func mpartContent(p MPart) []byte {
+	switch p.Content {
+	case "profile":
+		return paddedPprof(rand.New(rand.NewSource(1)), p.Size)
+	case "nested":
+		return gz(paddedPprof(rand.New(rand.NewSource(1)), p.Size))
+	case "empty":
+		return gz(nil)
+	case "garbage":
+		return gz(bytes.Repeat([]byte{'a'}, p.Size))
+	}
+	return []byte("hello, not a gzip stream")
+}
+
+func mformBody(m *MFormDesc) []byte {
+	bnd := "vfb0undary-'x9"
+	if !m.BoundaryOK {
+		bnd = "vf_b0undary.x9" // characters outside the class findBoundary looks for
+	}
+	var b bytes.Buffer
+	for _, p := range m.Parts {
+		b.WriteString("--" + bnd + "\r\n")
+		if p.File {
+			fmt.Fprintf(&b, "Content-Disposition: form-data; name=%q; filename=\"profile.pprof\"\r\nContent-Type: application/octet-stream\r\n\r\n", p.Name)
+		} else {
+			fmt.Fprintf(&b, "Content-Disposition: form-data; name=%q\r\n\r\n", p.Name)
+		}
+		b.Write(mpartContent(p))
+		b.WriteString("\r\n")
+	}
+	if len(m.Parts) == 0 {
+		b.WriteString("--" + bnd + "\r\n")
+	}
+	if m.Closed {
+		b.WriteString("--" + bnd + "--\r\n")
+	}
+	return b.Bytes()
+}
+
+func genMForm(r *rand.Rand, id int) Case {
+	m := &MFormDesc{BoundaryOK: r.Intn(8) != 0, Closed: r.Intn(7) != 0}
+	content := func() MPart {
+		p := MPart{Name: "profile", File: true, Content: "profile"}
+		switch k := r.Intn(12); {
+		case k == 0:
+			p.Content = "nested"
+		case k == 1:
+			p.Content = "empty"
+		case k == 2:
+			p.Content, p.Size = "garbage", pick1(r, 10, 5000, 99000, 100000, 100001, 250000)
+		case k == 3:
+			p.Content = "notgzip"
+		}
+		if p.Content == "profile" || p.Content == "nested" {
+			p.Size = pick1(r, 0, 0, 2000, 60000, 99000, 99500, 100000, 100500, 140000, 400000)
+		}
+		if p.Content == "nested" && r.Intn(3) == 0 {
+			p.Size = pick1(r, decodedLimit-4096, decodedLimit+4096, 3*decodedLimit) // the second layer around the payload limit
+		}
+		return p
+	}
+	n := 1
+	if r.Intn(5) == 0 {
+		n = r.Intn(4)
+	}
+	for i := 0; i < n; i++ {
+		p := content()
+		switch r.Intn(10) {
+		case 0:
+			p.Name = pick(r, "Profile", "profil", "sample_type_config", "")
+		case 1:
+			p.File = false
+		}
+		m.Parts = append(m.Parts, p)
+	}
+	if r.Intn(4) == 0 && len(m.Parts) > 0 { // a form value or a second file before / after
+		extra := MPart{Name: pick(r, "sample_type_config", "format", "profile"), File: r.Intn(2) == 0, Content: "notgzip"}
+		if r.Intn(2) == 0 {
+			m.Parts = append([]MPart{extra}, m.Parts...)
+		} else {
+			m.Parts = append(m.Parts, extra)
+		}
+	}
+	for i := range m.Parts {
+		c := mpartContent(m.Parts[i])
+		if m.Parts[i].Content != "notgzip" {
+			m.Parts[i].Inflated = decodedLen("gzip", c, 1<<23)
+		}
+		if m.Parts[i].Content == "nested" {
+			if g, err := gzip.NewReader(bytes.NewReader(c)); err == nil {
+				inner, _ := io.ReadAll(g)
+				m.Parts[i].Inflated2 = decodedLen("gzip", inner, 1<<23)
+			}
+		}
+	}
+	c := Case{ID: id, Stream: "mform", M: m}
+	c.Req.Path = "/ingest"
+	c.Req.Query = []KV{{"from", "1700000000"}, {"until", "1700000010"}, {"name", "app{a=b}"}}
+	c.Req.Headers = []KV{{"Content-Type", "multipart/form-data; boundary=whatever-the-header-says"}}
+	c.Req.BodyGen = &BodyGen{Kind: "mform"}
+	cls := "wellformed"
+	if !m.BoundaryOK {
+		cls = "boundary"
+	} else if !m.Closed {
+		cls = "unclosed"
+	} else if len(m.Parts) != 1 || m.Parts[0].Name != "profile" || !m.Parts[0].File || m.Parts[0].Content != "profile" {
+		cls = "parts"
+	} else if m.Parts[0].Inflated > 100000 {
+		cls = "over-100000"
+	}
+	c.Class = "mform/" + cls
 	return c
 }
 
@@ -1995,6 +2130,7 @@ func main() {
 	phrasesFile := flag.String("phrases-file", "", `JSON {"phrases":[...]}: texts the repository compares error texts with`)
 	maxBad := flag.Int("max-bad", 0, "stop after this many crash/hang/leak observations (0 = never)")
 	nframe := flag.Int("nframe", 0, "number of cases of stream frame (NDJSON bodies: line lengths around 64 KiB / 16 MiB, refused lines, unterminated rest, failing reader)")
+	nmform := flag.Int("nmform", 0, "number of cases of stream mform (the multipart form of /ingest: boundary line, closing delimiter, parts, what the profile file holds)")
 	nlimit := flag.Int("nlimit", 0, "number of cases of stream limit (payloads of an exact decoded size around the decoded-size limit, plain / gzip / snappy)")
 	flag.IntVar(&decodedLimit, "decoded-limit", decodedLimit, "pbPool.limit the router runs with, bytes (helpers.SetGlobalLimit(2*this))")
 	stall := flag.Bool("stall", false, "stalled-body scenarios over a real listener (see stallMode)")
@@ -2044,6 +2180,9 @@ func main() {
 		}
 		for i := 0; i < *nlimit; i++ {
 			cases = append(cases, genLimit(r, f.N+*nbytes+*ngeneric+i))
+		}
+		for i := 0; i < *nmform; i++ {
+			cases = append(cases, genMForm(r, 6000000+i))
 		}
 		for i := 0; i < *nframe; i++ {
 			cases = append(cases, genFrame(r, f.N+*nbytes+*ngeneric+*nlimit+i))
